@@ -15,6 +15,7 @@ EXTENDS Naturals, Sequences, FiniteSets, TLC, Json
 
 CONSTANTS Names, Hashes, SymOK, NoRemove,      \* as in RefMap
           Objects,      \* object symbols
+          PackSets,     \* sets of objects that arrive together as one pack (PackfileWriter), may overlap
           IdxVals,      \* index symbols other than "none"
           ShallowSets,  \* possible arguments of SetShallow (sets of commit symbols)
           CfgVals,      \* configuration symbols other than the initial one
@@ -46,6 +47,7 @@ CAS(n, v, old)  == LET cur == st.refs[n]
 RemoveRef(n)    == Do("remove", n, None, None, "ok", [st EXCEPT !.refs[n] = None])
 Pack            == Do("pack", None, None, None, "ok", st)
 SetObj(o)       == Do("setobj", o, None, None, "ok", [st EXCEPT !.objs = @ \cup {o}])
+AddPack(S)      == Do("addpack", S, None, None, "ok", [st EXCEPT !.objs = @ \cup S])
 SetIndex(i)     == Do("setindex", i, None, None, "ok", [st EXCEPT !.idx = i])
 SetShallow(S)   == Do("setshallow", S, None, None, "ok", [st EXCEPT !.shallow = S])
 SetConfig(c)    == Do("setconfig", c, None, None, "ok", [st EXCEPT !.cfg = c])
@@ -59,6 +61,7 @@ Next ==
      \/ \E n \in Names \ NoRemove : RemoveRef(n)
      \/ Pack
      \/ \E o \in Objects : SetObj(o)
+     \/ \E S \in PackSets : AddPack(S)
      \/ \E i \in IdxVals : SetIndex(i)
      \/ \E S \in ShallowSets \cup {{}} : SetShallow(S)
      \/ \E c \in CfgVals : SetConfig(c)
@@ -69,8 +72,8 @@ Spec == Init /\ [][Next]_vars
 Prev(i) == IF i = 1 THEN init ELSE hist[i-1].st
 FailedChangesNothing == \A i \in 1..Len(hist) : hist[i].res # "ok" => hist[i].st = Prev(i)
 ObjectsOnlyGrow == \A i \in 1..Len(hist) : Prev(i).objs \subseteq hist[i].st.objs
-FrameRefs == \A i \in 1..Len(hist) : hist[i].op \in {"setobj", "setindex", "setshallow", "setconfig", "pack"} => hist[i].st.refs = Prev(i).refs
-FrameObjs == \A i \in 1..Len(hist) : hist[i].op # "setobj" => hist[i].st.objs = Prev(i).objs
+FrameRefs == \A i \in 1..Len(hist) : hist[i].op \in {"setobj", "addpack", "setindex", "setshallow", "setconfig", "pack"} => hist[i].st.refs = Prev(i).refs
+FrameObjs == \A i \in 1..Len(hist) : hist[i].op \notin {"setobj", "addpack"} => hist[i].st.objs = Prev(i).objs
 ShallowReplaces == \A i \in 1..Len(hist) : hist[i].op = "setshallow" => hist[i].st.shallow = hist[i].a
 
 EmitHist == (EmitAll /\ Len(hist) = MaxOps) => PrintT(ToJson([init |-> init, steps |-> hist]))
